@@ -5,6 +5,7 @@ import (
 	"go/types"
 	"math/big"
 	"sort"
+	"strings"
 
 	. "govc/term"
 )
@@ -124,7 +125,7 @@ func (e *Engine) fromLeaves(t types.Type, ts []*Term, st *State) Value {
 	case RIface:
 		ts[0].AddFact(e.C.And(e.C.Le(e.C.IntC(0), ts[0]), e.C.Le(e.C.IntC(0), ts[1])))
 		e.refBound(ts[1], st)
-		return IfaceV{ts[0], ts[1]}
+		return IfaceV{Tag: ts[0], Box: ts[1]}
 	case RFunc:
 		return FuncV{Opaque: ts[0]}
 	case RArray:
@@ -153,6 +154,9 @@ func (e *Engine) toLeaves(t types.Type, v Value) ([]*Term, error) {
 		}
 	case RIface:
 		if x, ok := v.(IfaceV); ok {
+			if x.Ptr != nil {
+				return nil, fmt.Errorf("interface holding a pointer to a local cannot be stored")
+			}
 			return []*Term{x.Tag, x.Box}, nil
 		}
 	case RFunc:
@@ -263,6 +267,10 @@ func (e *Engine) load(s *State, p PtrV) Value {
 		}
 		return out
 	case PLeaf:
+		if strings.HasPrefix(p.Key, "global:") && isErrorType(p.T) {
+			// sentinel error variables: immutable, non-nil, pairwise distinct
+			return IfaceV{Tag: e.errorTag(), Box: e.globalRef("errval:" + p.Key)}
+		}
 		ls := e.leavesOf(p.T)
 		if ls == nil {
 			return PoisonV{"load leaf of " + p.T.String()}
@@ -437,7 +445,7 @@ func (e *Engine) ensureElemAxioms() {
 	a := c.BoundVar("a", Int)
 	i := c.BoundVar("i", Int)
 	el := c.App("elem", Int, a, i)
-	body := c.And(c.Eq(c.App("elemArr", Int, el), a), c.Eq(c.App("elemIdx", Int, el), i), c.Lt(a, el))
+	body := c.And(c.Eq(c.App("elemArr", Int, el), a), c.Eq(c.App("elemIdx", Int, el), i), c.Lt(a, el), c.Eq(e.rootOf(el), e.rootOf(a)))
 	c.AddAxiom("elem-inj", []string{"elem"}, c.Quant("forall", []*Term{a, i}, body, [][]*Term{{el}}))
 }
 
@@ -448,7 +456,7 @@ func (e *Engine) subRef(t types.Type, i int, ref *Term) *Term {
 		e.subAx[name] = true
 		r := c.BoundVar("r", Int)
 		sr := c.App(name, Int, r)
-		body := c.And(c.Eq(c.App("parent:"+fieldKey(t, i), Int, sr), r), c.Implies(c.Lt(c.IntC(0), r), c.Lt(c.IntC(0), sr)))
+		body := c.And(c.Eq(c.App("parent:"+fieldKey(t, i), Int, sr), r), c.Implies(c.Lt(c.IntC(0), r), c.Lt(c.IntC(0), sr)), c.Eq(e.rootOf(sr), e.rootOf(r)))
 		c.AddAxiom(name, []string{name}, c.Quant("forall", []*Term{r}, body, [][]*Term{{sr}}))
 	}
 	return c.App(name, Int, ref)
@@ -581,7 +589,7 @@ func (e *Engine) zero(t types.Type) Value {
 		z := c.IntC(0)
 		return SliceV{z, z, z, z}
 	case RIface:
-		return IfaceV{c.IntC(0), c.IntC(0)}
+		return IfaceV{Tag: c.IntC(0), Box: c.IntC(0)}
 	case RFunc:
 		return FuncV{Opaque: c.IntC(0)}
 	case RStruct:
@@ -641,7 +649,7 @@ func (e *Engine) fresh(t types.Type, name string, s *State) Value {
 		e.refBound(v.Arr, s)
 		return v
 	case RIface:
-		v := IfaceV{c.Fresh(name+"#tag", Int), c.Fresh(name+"#box", Int)}
+		v := IfaceV{Tag: c.Fresh(name+"#tag", Int), Box: c.Fresh(name+"#box", Int)}
 		v.Tag.AddFact(c.And(c.Le(c.IntC(0), v.Tag), c.Implies(c.Eq(v.Tag, c.IntC(0)), c.Eq(v.Box, c.IntC(0)))))
 		v.Box.AddFact(c.Le(c.IntC(0), v.Box))
 		e.refBound(v.Box, s)
@@ -691,7 +699,7 @@ func (e *Engine) refFact(v *Term, t types.Type, s *State) {
 // refBound records that reference r existed before the current allocation point.
 func (e *Engine) refBound(r *Term, s *State) {
 	if s != nil && s.next != nil && !r.IsConst() {
-		r.AddFact(e.C.Lt(r, s.next))
+		r.AddFact(e.C.Lt(e.rootOf(r), s.next))
 	}
 }
 
@@ -699,9 +707,15 @@ func (e *Engine) refBound(r *Term, s *State) {
 func (e *Engine) newRef(s *State, name string) *Term {
 	c := e.C
 	r := c.Fresh(name, Int)
-	r.AddFact(c.And(c.Le(s.next, r), c.Lt(c.IntC(0), r)))
+	r.AddFact(c.And(c.Le(s.next, r), c.Lt(c.IntC(0), r), c.Eq(e.rootOf(r), r)))
 	s.next = c.Add(r, c.IntC(1))
 	return r
+}
+
+// rootOf is the allocation unit an address belongs to: elements of arrays and
+// embedded structs have the root of their container.
+func (e *Engine) rootOf(r *Term) *Term {
+	return e.C.App("root", Int, r)
 }
 
 // ---- merging ----
@@ -725,7 +739,13 @@ func (e *Engine) mergeVal(g *Term, a, b Value) Value {
 		}
 	case IfaceV:
 		if y, ok := b.(IfaceV); ok {
-			return IfaceV{c.Ite(g, x.Tag, y.Tag), c.Ite(g, x.Box, y.Box)}
+			if x.Ptr != nil || y.Ptr != nil {
+				if x.Ptr != nil && y.Ptr != nil && valueEq(*x.Ptr, *y.Ptr) {
+					return IfaceV{c.Ite(g, x.Tag, y.Tag), c.Ite(g, x.Box, y.Box), x.Ptr}
+				}
+				return PoisonV{"merge of interfaces holding pointers to locals"}
+			}
+			return IfaceV{Tag: c.Ite(g, x.Tag, y.Tag), Box: c.Ite(g, x.Box, y.Box)}
 		}
 	case StructV:
 		if y, ok := b.(StructV); ok && len(x.F) == len(y.F) {
@@ -949,4 +969,9 @@ func (e *Engine) strLen(s *Term) *Term {
 	l := e.C.App("str.len", Int, s)
 	l.AddFact(e.C.Le(e.C.IntC(0), l))
 	return l
+}
+
+func isErrorType(t types.Type) bool {
+	n, ok := t.(*types.Named)
+	return ok && n.Obj().Pkg() == nil && n.Obj().Name() == "error"
 }
